@@ -1,8 +1,163 @@
 """Machine operations for approximate conditionals (gaussian_toolbox/approximate_conditional.py).
 Mixin for harness/machine.py:Machine; every method appends one protocol line (handled by the Lean
-driver extension) and executes the real library call, exactly like the methods in machine.py."""
+driver extension lean/GT/DriverApprox.lean) and executes the real library call, exactly like the
+methods in machine.py.
+
+Feature conditionals: `LRBFGaussianConditional`, `LSEMGaussianConditional` (base class
+`LConjugateFactorMGaussianConditional`).  All instructions are prefixed `feat_` because the
+un-prefixed names (`condition_on_x`, `joint`, …) are the linear classes' instructions in the driver.
+"""
 import numpy as np
 
 
+def _lib():
+    import jax.numpy as jnp
+    from gaussian_toolbox import approximate_conditional as gt_approx
+    return jnp, gt_approx
+
+
+def dump_feature(o):
+    """canonical dump of a feature conditional (None if `o` is not one)   [approx-feature]"""
+    jnp, gt_approx = _lib()
+    if not isinstance(o, gt_approx.LConjugateFactorMGaussianConditional):
+        return None
+    f64 = lambda x: np.asarray(x, dtype=np.float64)
+    k = o.k_func
+    fields = {"M": f64(o.M), "b": f64(o.b), "Sigma": f64(o.Sigma), "Lambda": f64(o.Lambda),
+              "ln_det_Sigma": f64(o.ln_det_Sigma),
+              "k_Lambda": f64(k.Lambda), "k_nu": f64(k.nu), "k_ln_beta": f64(k.ln_beta)}
+    if isinstance(o, gt_approx.LRBFGaussianConditional):
+        kind = "rbf"
+        fields["mu"] = f64(o.mu); fields["length_scale"] = f64(o.length_scale)
+    elif isinstance(o, gt_approx.LSEMGaussianConditional):
+        kind = "lsem"
+        fields["W"] = f64(o.W); fields["w0"] = f64(o.w0)
+        fields["k_v"] = f64(k.v); fields["k_g"] = f64(k.g)
+    else:
+        raise TypeError(f"cannot dump {type(o)}")
+    return dict(type="feat", head=(kind, o.R, o.Dy, o.Dx, o.Dk), fields=fields)
+
+
+def parse_feature_head(tokens):
+    """head of a `feat …` dump of the Lean driver -> (head, position of the first field)   [approx-feature]"""
+    return (tokens[1], int(tokens[2]), int(tokens[3]), int(tokens[4]), int(tokens[5])), 6
+
+
 class ApproxOps:
-    pass
+    # -- constructors ------------------------------------------------------------------------------
+    def feat_rbf(self, M, b, mu, length_scale, Sigma=None, Lambda=None, ln_det_Sigma=None):
+        """LRBFGaussianConditional(M=[R,Dy,Dx+Dk], b=[R,Dy]|None, mu=[Dk,Dx], length_scale=[Dk,Dx], …)"""
+        from machine import arr_tok
+        jnp, gt_approx = _lib()
+        M = np.asarray(M, dtype=np.float64); mu = np.asarray(mu, dtype=np.float64)
+        R, Dy = M.shape[0], M.shape[1]; Dk, Dx = mu.shape
+        dst = self.new()
+        toks = [R, Dy, Dx, Dk] + arr_tok(M) + arr_tok(b) + arr_tok(mu) + arr_tok(length_scale) + \
+            arr_tok(Sigma) + arr_tok(Lambda) + arr_tok(ln_det_Sigma)
+        j = lambda a: None if a is None else jnp.asarray(np.asarray(a, dtype=np.float64))
+        return self._emit(dst, "feat_rbf", toks,
+                          lambda: gt_approx.LRBFGaussianConditional(M=j(M), b=j(b), mu=j(mu), length_scale=j(length_scale),
+                                                                    Sigma=j(Sigma), Lambda=j(Lambda), ln_det_Sigma=j(ln_det_Sigma)),
+                          dict(R=R, Dy=Dy, Dx=Dx, Dk=Dk,
+                               given=(b is not None, Sigma is not None, Lambda is not None, ln_det_Sigma is not None)))
+
+    def feat_lsem(self, M, b, W, Sigma=None, Lambda=None, ln_det_Sigma=None):
+        """LSEMGaussianConditional(M=[R,Dy,Dx+Dk], b=[R,Dy]|None, W=[Dk,Dx+1] (column 0 is the offset), …)"""
+        from machine import arr_tok
+        jnp, gt_approx = _lib()
+        M = np.asarray(M, dtype=np.float64); W = np.asarray(W, dtype=np.float64)
+        R, Dy = M.shape[0], M.shape[1]; Dk, Dx = W.shape[0], W.shape[1] - 1
+        dst = self.new()
+        toks = [R, Dy, Dx, Dk] + arr_tok(M) + arr_tok(b) + arr_tok(W) + arr_tok(Sigma) + arr_tok(Lambda) + arr_tok(ln_det_Sigma)
+        j = lambda a: None if a is None else jnp.asarray(np.asarray(a, dtype=np.float64))
+        return self._emit(dst, "feat_lsem", toks,
+                          lambda: gt_approx.LSEMGaussianConditional(M=j(M), b=j(b), W=j(W), Sigma=j(Sigma), Lambda=j(Lambda),
+                                                                    ln_det_Sigma=j(ln_det_Sigma)),
+                          dict(R=R, Dy=Dy, Dx=Dx, Dk=Dk,
+                               given=(b is not None, Sigma is not None, Lambda is not None, ln_det_Sigma is not None)))
+
+    # -- feature vector, conditional mean, conditioning ---------------------------------------------
+    def feat_phi(self, c, x):
+        """evaluate_phi(x) -> [N, Dx+Dk]"""
+        dst = self.new()
+        return self._emit(dst, "feat_phi", [c, x], lambda: self.regs[c].evaluate_phi(self.regs[x]))
+
+    evaluate_feature = feat_phi
+
+    def feat_cond_mu(self, c, x):
+        """get_conditional_mu(x) -> [N, Dy]"""
+        dst = self.new()
+        return self._emit(dst, "feat_cond_mu", [c, x], lambda: self.regs[c].get_conditional_mu(self.regs[x]))
+
+    def feat_condition_on_x(self, c, x, via_call=False):
+        """condition_on_x(x) (or `c(x)`) -> GaussianPDF with N components"""
+        dst = self.new()
+        fn = (lambda: self.regs[c](self.regs[x])) if via_call else (lambda: self.regs[c].condition_on_x(self.regs[x]))
+        return self._emit(dst, "feat_condition_on_x", [c, x], fn, dict(via_call=via_call))
+
+    def feat_set_y(self, c, y):
+        dst = self.new()
+        return self._emit(dst, "feat_set_y", [c, y], lambda: self.regs[c].set_y(self.regs[y]))
+
+    # -- matched moments and the three transformations -----------------------------------------------
+    def feat_moments(self, c, p):
+        """get_expected_moments(p_x) -> (register of mu_y [Rx,Dy], register of Sigma_y [Rx,Dy,Dy])"""
+        d1 = self.new()
+        self._emit(d1, "feat_moments_mu", [c, p], lambda: self.regs[c].get_expected_moments(self.regs[p])[0])
+        d2 = self.new()
+        self._emit(d2, "feat_moments_sigma", [c, p], lambda: self.regs[c].get_expected_moments(self.regs[p])[1])
+        return d1, d2
+
+    def feat_cross(self, c, p):
+        """get_expected_cross_terms(p_x) -> E[y x'] [Rx,Dy,Dx]"""
+        dst = self.new()
+        return self._emit(dst, "feat_cross", [c, p], lambda: self.regs[c].get_expected_cross_terms(self.regs[p]))
+
+    def feat_transform(self, which, c, p):
+        dst = self.new()
+        name = {"joint": "affine_joint_transformation", "marginal": "affine_marginal_transformation",
+                "conditional": "affine_conditional_transformation", "cond_entropy": "conditional_entropy",
+                "mutual_information": "mutual_information"}[which]
+        return self._emit(dst, "feat_" + which, [c, p], lambda: getattr(self.regs[c], name)(self.regs[p]), dict(which=which))
+
+    # -- expected log-conditionals ---------------------------------------------------------------------
+    def feat_log_cond(self, c, q, p_x=None):
+        """integrate_log_conditional(p_yx[, p_x]) -> [Rq]"""
+        dst = self.new()
+        if p_x is None:
+            fn = lambda: self.regs[c].integrate_log_conditional(self.regs[q])
+        else:
+            fn = lambda: self.regs[c].integrate_log_conditional(self.regs[q], p_x=self.regs[p_x])
+        return self._emit(dst, "feat_log_cond", [c, q, -1 if p_x is None else p_x], fn, dict(given_px=p_x is not None))
+
+    def feat_log_cond_y(self, c, p, y, callable_form=False):
+        """integrate_log_conditional_y(p_x, y=y) or integrate_log_conditional_y(p_x)(y)"""
+        dst = self.new()
+        def fn():
+            if callable_form:
+                return self.regs[c].integrate_log_conditional_y(self.regs[p])(self.regs[y])
+            return self.regs[c].integrate_log_conditional_y(self.regs[p], y=self.regs[y])
+        return self._emit(dst, "feat_log_cond_y", [c, p, y], fn, dict(callable_form=callable_form))
+
+    # -- inherited housekeeping ------------------------------------------------------------------------
+    def feat_slice(self, c, idx):
+        from machine import ints_tok
+        jnp, _ = _lib()
+        dst = self.new()
+        return self._emit(dst, "feat_slice", [c] + ints_tok(idx),
+                          lambda: self.regs[c].slice(jnp.asarray(np.asarray(idx, dtype=np.int32))),
+                          dict(idx=[int(i) for i in idx]))
+
+    def feat_update_sigma(self, c, S):
+        from machine import arr_tok
+        jnp, _ = _lib()
+        dst = self.new()
+        def fn():
+            self.regs[c].update_Sigma(jnp.asarray(np.asarray(S, dtype=np.float64))); return None
+        return self._emit(dst, "feat_update_sigma", [c] + arr_tok(S), fn)
+
+    def feat_update_phi(self, c):
+        dst = self.new()
+        def fn():
+            self.regs[c].update_phi(); return None
+        return self._emit(dst, "feat_update_phi", [c], fn)
